@@ -240,6 +240,7 @@ def fixedstruct_window(prog, rep, rid):
         return None
 
     table = {}
+    null_test_bad = []
     domain = [(sa, sb, ra, rb) for sa in (0, 1) for sb in (0, 1) for (ra, rb) in RELS]
     for key in domain:
         sa, sb, ra, rb = key
@@ -252,6 +253,8 @@ def fixedstruct_window(prog, rep, rid):
                     rx, ry = classify_root(x), classify_root(y)
                     if (rx, ry) in (("T", "ZERO"), ("ZERO", "T")):
                         # the null-record test: a real record is not (0,0)
+                        if op not in ("eq", "ne"):
+                            null_test_bad.append(op)
                         truth_if_nonnull = (op == "ne")
                         if outcome != truth_if_nonnull:
                             ok = False
@@ -304,6 +307,8 @@ def fixedstruct_window(prog, rep, rid):
         if outs != {want}:
             rep.violation(rid, pb.path + "|accept", "%s: a non-null record with A=%s B=%s t%sA t%sB is %s, the window requires %s" % (
                 pb.path, "Some" if sa else "None", "Some" if sb else "None", ra, rb, sorted(outs), want))
+    if null_test_bad:
+        rep.violation(rid, pb.path + "|null-test", "%s: the null-record test compares the time value with (0,0) using %s; only records equal to (0,0) are null, an ordering test also drops non-null records (e.g. pre-epoch times)" % (pb.path, sorted(set(null_test_bad))))
     if set(conv.values()) != {"A", "B"}:
         rep.violation(rid, pb.path + "|bounds", "%s: the two converted bounds derive from %s, expected one from the after and one from the before filter" % (pb.path, sorted(conv.values())))
     # the scan must not stop early at a record past the window: no path from the loop body returns
